@@ -195,6 +195,10 @@ theorem C18_total : ∀ fs : List Field, walk Skeleton.current "" false fs ≠ .
 theorem C18_lookup_resolves_nothing_but_the_exposed_paths :
     Skeleton.current.lkClosureManagerMethods = ["CallClosure"] := by decide
 
+/-- The walker model judges a function field by the FIELD's signature and treats every non-struct-kinded field (pointers to structs included) as `other`. In the source the walk looks at `In(0)` and the results only, has no pointer handling and calls nothing of the closure validation (checked against the regenerated skeleton): a valid field whose callback PARAMETER has an unusual shape links, and a data struct reached through a pointer is ignored whatever it holds. -/
+theorem C18_a_field_is_judged_by_its_own_signature :
+    Skeleton.current.rwJudgesFieldSignatureOnly = true := by decide
+
 end Panrpc.Rw
 
 #print axioms Panrpc.Rw.C18_validate_iff
@@ -211,3 +215,4 @@ end Panrpc.Rw
 #print axioms Panrpc.Rw.C18_panics_on_pinned
 #print axioms Panrpc.Rw.C18_total
 #print axioms Panrpc.Rw.C18_lookup_resolves_nothing_but_the_exposed_paths
+#print axioms Panrpc.Rw.C18_a_field_is_judged_by_its_own_signature
